@@ -10,9 +10,9 @@ import (
 	"go/ast"
 )
 
-// sliceBound emits `def name params : Int := <bound>` for the low (high=false) or high bound of the
+// treeSlotsSliceBound emits `def name params : Int := <bound>` for the low (high=false) or high bound of the
 // slice expression denoted by sel inside fn.
-func sliceBound(mod, pkg, fn, name, sel string, high bool, ps []Param, vars map[string]string) Site {
+func treeSlotsSliceBound(mod, pkg, fn, name, sel string, high bool, ps []Param, vars map[string]string) Site {
 	s := Site{Module: mod, Pkg: pkg, Func: fn, Name: name, Kind: Custom, Sel: sel, Params: ps, Vars: vars,
 		Calls: map[string]string{"int": "id", "int8": "id"}}
 	s.Custom = func(c *Ctx, s *Site) (string, error) {
@@ -66,10 +66,10 @@ func init() {
 		return Site{Module: mod, Pkg: pkg, Func: fn, Name: name, Kind: Present, Sel: sel, Text: text}
 	}
 	lo := func(fn, name, sel string, ps []Param, vars map[string]string) Site {
-		return sliceBound(mod, pkg, fn, name, sel, false, ps, vars)
+		return treeSlotsSliceBound(mod, pkg, fn, name, sel, false, ps, vars)
 	}
 	hi := func(fn, name, sel string, ps []Param, vars map[string]string) Site {
-		return sliceBound(mod, pkg, fn, name, sel, true, ps, vars)
+		return treeSlotsSliceBound(mod, pkg, fn, name, sel, true, ps, vars)
 	}
 	xn := map[string]string{"int(x.n)": "n"}
 	currN := map[string]string{"int(curr.n)": "n"}
